@@ -982,8 +982,24 @@ def desugar_collect_chains(text, log, relfile, line):
         b0 = rs - 1
         while b0 >= 0 and toks[b0].text not in (";", "{", "}"):
             b0 -= 1
+        # the chain may be the tail of a block that initialises a `let`: `let x: T = { ..; CHAIN };` - look one level out
         ctx = text[toks[b0].end if b0 >= 0 else 0:toks[rs].start]
+        q, d = rs - 1, 0
+        while q >= 0:
+            if toks[q].text in ("}", ")", "]"):
+                d += 1
+            elif toks[q].text in ("{", "(", "["):
+                if d == 0:
+                    break
+                d -= 1
+            q -= 1
+        if q > 0 and toks[q].text == "{" and toks[q - 1].text == "=":
+            b1 = q - 1
+            while b1 >= 0 and toks[b1].text not in (";", "{", "}"):
+                b1 -= 1
+            ctx = text[toks[b1].end if b1 >= 0 else 0:toks[q].start] + " " + ctx
         to_map = bool(re.search(r"\blet\b[^=]*:\s*[^=]*HashMap\s*<", ctx))
+        to_set = bool(re.search(r"\blet\b[^=]*:\s*[^=]*HashSet\s*<", ctx))
         item = "__i%d" % k
         coll = "__c%d" % k
         elem = _strip_block(body)
@@ -999,11 +1015,14 @@ def desugar_collect_chains(text, log, relfile, line):
                 if et[x].text == "." and et[x + 1].text == "map" and et[x + 2].text == "(" and match_close(et, x + 2) == len(et) - 1:
                     m_i = x
             if m_i is None:
-                raise VxError("N10: filter_map closure is not `opt.map(|q| E)`: %r" % elem[:80])
-            opt_recv = elem[:et[m_i].start].strip()
-            pat2, elem2, _c2 = _closure_parts(et, elem, m_i + 2)
-            elem = _strip_block(elem2)
-        ok_inner = _whole_call(elem, "Ok") if not to_map else None
+                # any other Option-valued closure body: keep the Some payload
+                opt_recv = "(%s)" % elem
+                pat2, elem = "__v%d" % k, "__v%d" % k
+            else:
+                opt_recv = elem[:et[m_i].start].strip()
+                pat2, elem2, _c2 = _closure_parts(et, elem, m_i + 2)
+                elem = _strip_block(elem2)
+        ok_inner = _whole_call(elem, "Ok") if not (to_map or to_set) else None
         if ok_inner is not None:
             elem = ok_inner
         if to_map:
@@ -1013,6 +1032,9 @@ def desugar_collect_chains(text, log, relfile, line):
                 raise VxError("N10: HashMap collect needs a pair element, got %r" % elem[:80])
             put = "%s.insert(%s, %s);" % (coll, parts[0], parts[1])
             init = "let mut %s = HashMap::new();" % coll
+        elif to_set:
+            put = "%s.insert(%s);" % (coll, elem)
+            init = "let mut %s = HashSet::new();" % coll
         else:
             put = "%s.push(%s);" % (coll, elem)
             init = "let mut %s = Vec::new();" % coll
